@@ -439,10 +439,22 @@ def r12_2_function_lookup(ctx: Ctx, rule: str = "R12.2") -> None:
                 name_v = next((n for n, a in caps.items() if a == ("name",)), f"{subj}.name")
                 args_v = next((n for n, a in caps.items() if a == ("args",)), f"{subj}.args")
                 facts = path_facts(p)
-                found = any(fct.kind == "IS" and not fct.polarity and "None" in fct.args and any("get_function" in a or a == "function" for a in fct.args) for fct in facts)
-                missing = any(fct.kind == "IS" and fct.polarity and "None" in fct.args and any("get_function" in a or a == "function" for a in fct.args) for fct in facts)
                 calls = [c for _, c in path_calls(p, i)]
                 gf = [c for c in calls if call_attr(c) == "get_function"]
+                # names bound to the looked-up function on this path
+                fnames = {"<none>"}
+                for s_ in p.steps[i:]:
+                    for n_ in ast.walk(s_.node) if not isinstance(s_.node, ast.match_case) else []:
+                        if isinstance(n_, ast.Assign) and isinstance(n_.value, ast.Call) and call_attr(n_.value) == "get_function":
+                            fnames |= {src(t) for t in n_.targets}
+                        if isinstance(n_, ast.NamedExpr) and isinstance(n_.value, ast.Call) and call_attr(n_.value) == "get_function":
+                            fnames.add(src(n_.target))
+
+                def about_lookup(fct):
+                    return fct.kind == "IS" and "None" in fct.args and any("get_function" in a or a in fnames for a in fct.args)
+
+                found = any(about_lookup(fct) and not fct.polarity for fct in facts)
+                missing = any(about_lookup(fct) and fct.polarity for fct in facts)
                 inst = f"{rel}:{fn}:{cname}:{'found' if found else 'fallback'}"
                 problem = None
                 if not gf or src(gf[0].func) != "self.get_function" or [src(a) for a in gf[0].args] != [name_v]:
@@ -450,8 +462,9 @@ def r12_2_function_lookup(ctx: Ctx, rule: str = "R12.2") -> None:
                 sl = backward_slice(p, [p.value], start=i)
                 txt = " ".join(src(e) for e in sl.exprs)
                 if found and not missing:
-                    # result is function(*converted args in order)
-                    if "function(*" not in txt.replace(" ", "") and "function(*" not in txt:
+                    # result is <looked-up function>(*converted args in order)
+                    applied = [c for e in sl.exprs for c in ast.walk(e) if isinstance(c, ast.Call) and isinstance(c.func, ast.Name) and c.func.id in fnames and any(isinstance(a, ast.Starred) for a in c.args)]
+                    if not applied:
                         problem = problem or "the looked-up function is not applied to the converted arguments"
                     if args_v not in txt:
                         problem = problem or "the arguments of the function node are not used"
